@@ -697,7 +697,9 @@ fn run_replay(checks: &[Check], file: &Path, print: bool, force_strict: bool) ->
         replay: true,
     };
     let out = part.replay(&ctx, &rf.case);
-    let _ = std::fs::remove_dir_all(scratch_base());
+    if std::env::var("VERIF_KEEP").is_err() {
+        let _ = std::fs::remove_dir_all(scratch_base());
+    }
     if let Some(f) = out.failure {
         if print {
             println!("REPLAY property={} part={} verdict=violation signature={}", rf.property, rf.part, f.signature);
